@@ -89,57 +89,17 @@ func r05_2(c *Ctx, r *Report) {
 
 func r05_3(c *Ctx, r *Report) {
 	const rule = "R05.3"
-	r.rule(rule, "The 23:00 rule. In computeDay the early-rat day pillar (…Exact) is advanced by one, with wrap-around, exactly when \"23:00\" <= HH:MM <= \"23:59\" (both bounds inclusive, both operands HH:MM renderings of the object's own hour and minute); the late-rat pillar (…Exact2) is the un-advanced pillar; computeTime derives the hour stem from the early-rat day stem.")
+	r.rule(rule, "The 23:00 rule. computeDay is evaluated symbolically over its finite input domain — every hour 0..23, every minute 0..59 and every value of the plain day stem (0..9) and branch (0..11) index: on the unique feasible path the stored early-rat index (…Exact) equals (plain + [hour == 23]) modulo its cycle and the stored late-rat index (…Exact2) equals the plain index. computeTime and NewLunarTime derive the hour stem from the early-rat day stem. Any implementation of the boundary test (string comparison of HH:MM or integer test of the hour) is accepted.")
 	fn := c.Fn(r, rule, "calendar.computeDay")
 	if fn == nil {
 		return
 	}
-	// the two boundary atoms
-	type atom struct {
-		k  string
-		op token.Token
-		b  *ssa.BasicBlock
+	paths, ok := enumPaths(fn.Blocks[0], nil, 4096)
+	if !ok {
+		r.bad(rule, "calendar.computeDay is loop-free", c.fnPos(fn), "the function has a loop or too many paths (undecided = fail)")
+		return
 	}
-	var atoms []atom
-	hmOK := true
-	for _, b := range fn.Blocks {
-		iff, ok := b.Instrs[len(b.Instrs)-1].(*ssa.If)
-		if !ok {
-			continue
-		}
-		x, y, op, ok := stringCompareAtom(iff.Cond)
-		if !ok {
-			continue
-		}
-		k, isK := constString(y)
-		if !isK {
-			continue
-		}
-		atoms = append(atoms, atom{k, op, b})
-		if _, f, args, ok := sprintfCall(x); !ok || f != "%02d:%02d" || len(args) != 2 || describeArg(c, fn, args[0]) != "p0.hour" || describeArg(c, fn, args[1]) != "p0.minute" {
-			hmOK = false
-		}
-	}
-	okAtoms := len(atoms) == 2 && hmOK
-	var lower, upper *atom
-	for i := range atoms {
-		if atoms[i].k == "23:00" && atoms[i].op == token.GEQ {
-			lower = &atoms[i]
-		}
-		if atoms[i].k == "23:59" && atoms[i].op == token.LEQ {
-			upper = &atoms[i]
-		}
-	}
-	r.check(okAtoms && lower != nil && upper != nil, rule, "calendar.computeDay tests \"23:00\" <= HH:MM <= \"23:59\"", c.fnPos(fn),
-		fmt.Sprintf("boundary atoms found: %v (hour/minute rendering ok: %v)", func() []string {
-			var s []string
-			for _, a := range atoms {
-				s = append(s, "hm "+a.op.String()+" "+a.k)
-			}
-			return s
-		}(), hmOK))
-	// stores
-	var stores = map[string]*ssa.Store{}
+	stores := map[string]*ssa.Store{}
 	for _, b := range fn.Blocks {
 		for _, ins := range b.Instrs {
 			if st, ok := ins.(*ssa.Store); ok {
@@ -149,50 +109,81 @@ func r05_3(c *Ctx, r *Report) {
 			}
 		}
 	}
-	for _, gz := range []struct {
-		name string
-		wrap int64
-	}{{"Gan", 10}, {"Zhi", 12}} {
-		plain, ex, ex2 := stores["Lunar.day"+gz.name+"Index"], stores["Lunar.day"+gz.name+"IndexExact"], stores["Lunar.day"+gz.name+"IndexExact2"]
-		if plain == nil || ex == nil || ex2 == nil {
-			r.bad(rule, "calendar.computeDay stores the three day "+gz.name+" variants", c.fnPos(fn), "missing store (undecided = fail)")
-			continue
+	type variant struct {
+		name            string
+		cycle           int64
+		plain, ex, ex2  *ssa.Store
+	}
+	vs := []variant{{name: "Gan", cycle: 10}, {name: "Zhi", cycle: 12}}
+	missing := false
+	for i := range vs {
+		vs[i].plain, vs[i].ex, vs[i].ex2 = stores["Lunar.day"+vs[i].name+"Index"], stores["Lunar.day"+vs[i].name+"IndexExact"], stores["Lunar.day"+vs[i].name+"IndexExact2"]
+		if vs[i].plain == nil || vs[i].ex == nil || vs[i].ex2 == nil {
+			missing = true
 		}
-		isPlain := func(v ssa.Value) bool {
-			if v == plain.Val {
-				return true
-			}
-			if recv, f, ok := getterField(c, v); ok && recv == ssa.Value(fn.Params[0]) && f == "Lunar.day"+gz.name+"Index" {
-				return true
-			}
-			return false
-		}
-		r.check(isPlain(ex2.Val), rule, "calendar.computeDay: late-rat day "+gz.name+" is the un-advanced pillar", c.pos(ex2.Pos()), "Exact2 is stored from the plain value")
-		// Exact: phi(base, advanced) where the advanced edge is dominated by both boundary tests being true
-		good := false
-		detail := "the stored value is not a merge of the un-advanced pillar and pillar+1 (wrapped) selected by the two boundary tests"
-		if phi, ok := ex.Val.(*ssa.Phi); ok && lower != nil && upper != nil {
-			region := upper.b.Succs[0] // evaluated second under &&
-			if !(lower.b.Succs[0] == upper.b) {
-				region = nil
-			}
-			var baseOK, advOK bool
-			for i, e := range phi.Edges {
-				pred := phi.Block().Preds[i]
-				if isPlain(e) && (region == nil || !region.Dominates(pred)) {
-					baseOK = true
-					continue
+	}
+	construct := "calendar.computeDay: day stem/branch variants over hour x minute x pillar"
+	if missing {
+		r.bad(rule, construct, c.fnPos(fn), "a store of one of the six day-pillar variants is missing (undecided = fail)")
+	} else {
+		var problems []string
+		n := 0
+		for h := int64(0); h < 24 && len(problems) < 3; h++ {
+			for m := int64(0); m < 60 && len(problems) < 3; m++ {
+				for pillar := int64(0); pillar < 60 && len(problems) < 3; pillar++ {
+					base := map[string]int64{"Gan": pillar % 10, "Zhi": pillar % 12}
+					leaf := func(v ssa.Value) (interface{}, bool) {
+						for _, x := range vs {
+							if v == x.plain.Val {
+								return base[x.name], true
+							}
+						}
+						if recv, f, ok := getterField(c, v); ok && recv == ssa.Value(fn.Params[0]) {
+							switch f {
+							case "Lunar.hour":
+								return h, true
+							case "Lunar.minute":
+								return m, true
+							case "Lunar.dayGanIndex":
+								return base["Gan"], true
+							case "Lunar.dayZhiIndex":
+								return base["Zhi"], true
+							}
+						}
+						return nil, false
+					}
+					fp, msg := feasiblePaths(paths, leaf)
+					if msg != "" {
+						problems = append(problems, msg)
+						break
+					}
+					if len(fp) != 1 {
+						problems = append(problems, fmt.Sprintf("%02d:%02d selects %d paths", h, m, len(fp)))
+						break
+					}
+					n++
+					for _, x := range vs {
+						v1, ok1 := evalSSA(fp[0], x.ex.Val, leaf, 0)
+						v2, ok2 := evalSSA(fp[0], x.ex2.Val, leaf, 0)
+						want := base[x.name]
+						if h == 23 {
+							want = (want + 1) % x.cycle
+						}
+						if !ok1 || !ok2 {
+							problems = append(problems, "stored value not evaluable")
+							break
+						}
+						if v1 != interface{}(want) {
+							problems = append(problems, fmt.Sprintf("at %02d:%02d with plain %s index %d the early-rat index is %v, expected %d", h, m, x.name, base[x.name], v1, want))
+						}
+						if v2 != interface{}(base[x.name]) {
+							problems = append(problems, fmt.Sprintf("at %02d:%02d with plain %s index %d the late-rat index is %v, expected %d", h, m, x.name, base[x.name], v2, base[x.name]))
+						}
+					}
 				}
-				if region != nil && region.Dominates(pred) && isIncrementOf(e, isPlain, gz.wrap) {
-					advOK = true
-				}
-			}
-			good = baseOK && advOK && region != nil
-			if good {
-				detail = "advanced by one (minus " + fmt.Sprint(gz.wrap) + " on overflow) exactly under both tests"
 			}
 		}
-		r.check(good, rule, "calendar.computeDay: early-rat day "+gz.name+" advances in 23:00-23:59 only", c.pos(ex.Pos()), detail)
+		r.check(len(problems) == 0 && n == 24*60*60, rule, construct, c.pos(vs[0].ex.Pos()), fmt.Sprintf("%d cases (24 hours x 60 minutes x 60 pillars) evaluated on %d paths; %s", n, len(paths), strings.Join(headList(problems, 3), "; ")))
 	}
 	if tf := c.Fn(r, rule, "calendar.computeTime"); tf != nil {
 		reads := c.eff.Of(tf).paramReads(0)
